@@ -46,7 +46,7 @@ func init() {
 	RegisterSub("C14", "readat", RunC14ReadAt)
 }
 
-const c14Rule = "configurations (catalogue types x gen.RandWriterCfg, and a local row type with bloom filters, deferred bloom buffers, file/chunk page-buffer pools, every codec, SortingWriter, WriteRowGroup copy path, encryption) x {unbuffered, buffered} x fault offset x {full failure, short write} x {positional, sticky}; prefixes of every produced file; ReaderAt faults at every call index; non-trivial = the fault lies strictly inside the file (not at byte 0, not in the last 8 bytes) resp. the prefix keeps at least the header magic resp. the failing read is not the first one"
+const c14Rule = "configurations (catalogue types x gen.RandWriterCfg, and a local row type with bloom filters, deferred bloom buffers, file/chunk page-buffer pools, every codec, SortingWriter, WriteRowGroup copy path, encryption) x {unbuffered, buffered} x fault offset x {full failure, short write} x {positional = capacity, sticky, one-shot = transient}; prefixes of every produced file; ReaderAt faults at every call index; non-trivial = the fault lies strictly inside the file (not at byte 0, not in the last 8 bytes) resp. the prefix keeps at least the header magic resp. the failing read is not the first one"
 
 // ---------------------------------------------------------------- replay of one recorded case
 
@@ -103,13 +103,14 @@ type c14W struct {
 }
 
 type c14Sink struct {
-	data   []byte
-	k      int // byte index that cannot be stored; -1 = none
-	short  bool
-	sticky bool
-	failed bool
-	call   int
-	trace  []c14W
+	data    []byte
+	k       int // byte index that cannot be stored; -1 = none
+	short   bool
+	sticky  bool
+	oneshot bool // transient: only the first write that would cross k fails, later writes are accepted
+	failed  bool
+	call    int
+	trace   []c14W
 	// first failure
 	heldAtFail int
 	noTrace    bool
@@ -118,9 +119,13 @@ type c14Sink struct {
 func newC14Sink(k int, mode string) *c14Sink {
 	s := &c14Sink{k: k, heldAtFail: -1}
 	switch mode {
-	case "full":
+	case "full", "capacity": // positional: a later smaller write that still fits below k is accepted
 	case "short":
 		s.short = true
+	case "oneshot":
+		s.oneshot = true
+	case "oneshotshort":
+		s.oneshot, s.short = true, true
 	case "fullsticky":
 		s.sticky = true
 	case "shortsticky":
@@ -138,6 +143,7 @@ func (s *c14Sink) write(p []byte, str bool) (int, error) {
 	switch {
 	case s.sticky && s.failed:
 		n, failed = 0, true
+	case s.oneshot && s.failed:
 	case s.k < 0 || len(s.data)+len(p) <= s.k:
 	case s.short:
 		n, failed = s.k-len(s.data), true
@@ -898,12 +904,13 @@ func c14SinkVariant(ctx *core.Ctx, v *c14Variant, sample bool) {
 	var obs []c14Obs
 	l2budget := ctx.Scale(60, 400)
 	l2every := 1
-	if len(ks)*2 > l2budget {
-		l2every = (len(ks)*2 + l2budget - 1) / l2budget
+	if len(ks)*4 > l2budget {
+		l2every = (len(ks)*4 + l2budget - 1) / l2budget
 	}
 	n := 0
 	for _, k := range ks {
-		modes := []string{"full", "short"}
+		// full = capacity sink; oneshot* = transient failure, the sink recovers
+		modes := []string{"full", "short", "oneshot", "oneshotshort"}
 		if r.Intn(4) == 0 || k < 8 {
 			modes = append(modes, "fullsticky", "shortsticky")
 		}
@@ -956,7 +963,7 @@ func c14SinkVariant(ctx *core.Ctx, v *c14Variant, sample bool) {
 			if closeRan && first < len(e.calls)-1 {
 				if closeOK {
 					ctx.Hist("sink.close-after-error", "nil")
-					if v.buffered || mode != "full" {
+					if v.buffered || (mode != "full" && !strings.HasPrefix(mode, "oneshot")) {
 						ctx.Fail("L1", "close-nil-after-failure "+sig+" mode="+mode,
 							"an earlier call reported the fault, and Close then returns nil although the destination cannot take another byte (sticky buffer error / sticky or short sink)",
 							detail(k, mode, e, nil))
@@ -1135,7 +1142,7 @@ func RunC14Bufio(ctx *core.Ctx) {
 					k = r.Intn(total + 2)
 					ks = fmt.Sprint(k)
 				}
-				mode := []string{"full", "short", "fullsticky", "shortsticky"}[r.Intn(4)]
+				mode := []string{"full", "short", "fullsticky", "shortsticky", "oneshot", "oneshotshort"}[r.Intn(6)]
 				req := fmt.Sprintf("io.bufio %d %s %s %s", capN, ks, mode, strings.Join(ops, ","))
 				ctx.Case(req, k >= 0 && len(ops) >= 2)
 				ctx.Hist("bufio.cap", fmt.Sprint(capN))
